@@ -58,6 +58,7 @@ type nhTrack struct {
 	OKPeers     map[string]bool // peers with a successful transmission
 	Prev        string          // previous node named when the bundle was received
 	ID          bpv7.BundleID   // the ID under which the node holds it
+	EpochStep   int             // index of the step of the latest (re)acceptance after the node had dropped the bundle
 	AgeAtAccept uint64
 }
 
@@ -175,6 +176,14 @@ func (r *nhRun) apply(e nhEvent) error {
 		t := r.tr[e.B]
 		first := !t.Accepted
 		effective = first
+		if !first && !n.storeInfo(t.ID).Known {
+			// the node no longer holds the bundle (delivered / expired): this reception starts a new holding
+			t.EpochStep = len(r.steps)
+			t.OKPeers = map[string]bool{}
+			t.Prev = e.Q
+			t.AcceptedAt = vtime.Now()
+			effective = true
+		}
 		n.receive(b, e.P)
 		if first {
 			t.Accepted, t.AcceptedAt = true, vtime.Now()
